@@ -26,6 +26,11 @@ CHECKS = {
             'Exhaustive small scope: the order axioms (reflexive, transitive, Any top, nullable rules, class ancestry, union laws, insertion-order independence) are evaluated on the real public API for every pair and every triple of the universe; the matrices are recomputed several times with fresh Contexts and hash seeds; 600+ (T, U) pairs are cross-checked through the whole pipeline.',
             'The universe is finite and built through public constructors; function types are judged for reflexivity only, as the property states.',
             'DESIGN.md section 4, C20'),
+    'C03': ('exploration',
+            'fuzzing with crash / panic / step-budget / empty-diagnostics oracles on the real pipeline in worker processes (overflow-checked build), plain-release replay, gdb-symbolised crash signatures, valgrind memcheck slice',
+            'Hostile inputs (token-level mutations of all repository samples, token soup, raw UTF-8, 125 adversarial shapes, 2-5 file projects) are run through the real mamba_to_python on an 8 MiB stack under catch_unwind with a logical step budget armed through the counter hook; a worker death, panic, exceeded budget or empty diagnostics list is a violation; every 50th input is replayed on the plain release build and verdict differences are reported; thorough adds a valgrind memcheck slice.',
+            'Bounds: <= 4 KiB and <= 150 lines per file, <= 5 files; time bound = 4000 + 40*(tokens+1)^2 counted steps at the instrumented loop heads / recursive entries (a loop in uninstrumented code would surface as a watchdog inconclusive, not as a verdict).',
+            'DESIGN.md section 4, C03'),
 }
 
 NOT_YET = 'monitor not built yet in this revision (construction order: DESIGN.md section 9); not claimed rather than claimed weakly'
